@@ -261,6 +261,53 @@ Theorem c06_lag_skip_refuted :
 Proof. exact lag_skip_refuted. Qed.
 Print Assumptions c06_lag_skip_refuted.
 
+(* ---------- the WINDOW of the recovery: between the history re-read and the handler's next recv ----------
+   wfinal pol cap n m sched: as rfinal, but a lagged drain STOPS after the history re-read (server.rs live_frames: `refill()`
+   has answered, point sse.live.refilled) with its receiver untouched, and the subscriber's next step resumes it - so the
+   schedule may put any number of producer steps (record, publish, frames of other streams) INSIDE the window.  LagRefill
+   resumes with the receiver that was subscribed before the attach snapshot (a frame published in the window is in it, or
+   pushed it over its capacity again, and then the history is re-read again); LagRefillResubscribe replaces it by a new
+   receiver at the channel's tail first.  wdelivered = what the client has once it has read everything pending.
+   Exactly-once for LagRefill: every capacity, length, schedule, subscriber. *)
+Theorem c06_exactly_once_with_refill_window : forall (cap n m : nat) (sched : list actor) (i : nat) (x : wsub),
+  nth_error (w_subs (wfinal LagRefill cap n m sched)) i = Some x -> wattached x = true ->
+  exists k, wdelivered LagRefill (wfinal LagRefill cap n m sched) x = seq 0 k
+            /\ wpublished n (wfinal LagRefill cap n m sched) <= k /\ k <= n
+            /\ (w_prog (wfinal LagRefill cap n m sched) = [] -> k = n).
+Proof. exact exactly_once_with_refill_window. Qed.
+Print Assumptions c06_exactly_once_with_refill_window.
+
+(* ... for the policies read from today's three handlers (the extractor reads the WHOLE Lagged arm: the history is queued and
+   nothing else happens; a `receiver = receiver.resubscribe()` after it reads as LagRefillResubscribe, anything else fails) *)
+Theorem c06_exactly_once_with_refill_window_code : forall (pol : lagpolicy), In pol gen_lag_policy ->
+  forall (cap n m : nat) (sched : list actor) (i : nat) (x : wsub),
+  nth_error (w_subs (wfinal pol cap n m sched)) i = Some x -> wattached x = true ->
+  exists k, wdelivered pol (wfinal pol cap n m sched) x = seq 0 k
+            /\ wpublished n (wfinal pol cap n m sched) <= k /\ k <= n
+            /\ (w_prog (wfinal pol cap n m sched) = [] -> k = n).
+Proof. exact (exactly_once_with_refill_window_policies gen_lag_policy gen_lag_policy_ok). Qed.
+Print Assumptions c06_exactly_once_with_refill_window_code.
+
+(* history first, (re)subscribe second - the join rule backwards: capacity 1, the subscriber attaches, frames 0 and 1 are
+   produced (it lags), it reads (the history [0;1] is re-read), frame 2 is recorded and published in the window, it resumes
+   with a NEW receiver, frame 3 is produced, everything is read: [0;1;3].  Frame 2 is in neither the re-read history nor the
+   new receiver and the running last_seq hides it from every later re-read.  Same schedule: LagRefill [0;1;2;3]. *)
+Theorem c06_resubscribe_after_refill_refuted :
+  w_prog (wfinal LagRefillResubscribe 1 4 1 resub_sched) = []
+  /\ map wattached (w_subs (wfinal LagRefillResubscribe 1 4 1 resub_sched)) = [true]
+  /\ map (wdelivered LagRefillResubscribe (wfinal LagRefillResubscribe 1 4 1 resub_sched)) (w_subs (wfinal LagRefillResubscribe 1 4 1 resub_sched)) = [[0; 1; 3]]
+  /\ map (wdelivered LagRefill (wfinal LagRefill 1 4 1 resub_sched)) (w_subs (wfinal LagRefill 1 4 1 resub_sched)) = [[0; 1; 2; 3]]
+  /\ map (wdelivered LagSkip (wfinal LagSkip 1 4 1 resub_sched)) (w_subs (wfinal LagSkip 1 4 1 resub_sched)) = [[1; 2; 3]].
+Proof. exact resubscribe_refuted. Qed.
+Print Assumptions c06_resubscribe_after_refill_refuted.
+
+Example c06_resubscribe_with_room_in_the_channel :
+  w_prog (wfinal LagRefillResubscribe 4 8 1 resub_sched4) = []
+  /\ map (wdelivered LagRefillResubscribe (wfinal LagRefillResubscribe 4 8 1 resub_sched4)) (w_subs (wfinal LagRefillResubscribe 4 8 1 resub_sched4)) = [[0; 1; 2; 3; 4; 5; 7]]
+  /\ map (wdelivered LagRefill (wfinal LagRefill 4 8 1 resub_sched4)) (w_subs (wfinal LagRefill 4 8 1 resub_sched4)) = [[0; 1; 2; 3; 4; 5; 6; 7]].
+Proof. exact resubscribe_refuted_cap4. Qed.
+Print Assumptions c06_resubscribe_with_room_in_the_channel.
+
 Example c06_refill_demo :
   r_prog (rfinal LagRefill 2 6 3 refill_demo_sched) = []
   /\ map rs_pend (r_subs (rfinal LagRefill 2 6 3 refill_demo_sched)) = [true; true; false]
